@@ -270,7 +270,20 @@ EXPLAIN = {
 }
 
 
+SCHED = ("stateless preemption-bounded depth-first exploration of thread schedules of the REAL sync cache: real OS threads under a baton-passing scheduler that is called at cfg-guarded switch, blocking and yield points; every schedule with at most the stated number of preemptions of every program of the enumerated families is executed (counted under 'schedules' and as transitions; 'states' counts programs for these jobs); each execution's call/return history is checked against the register-with-loss specification and its quiescent end state against structure, counters, drop tracking, final-value and refill clauses; deadlock = no enabled thread, livelock = only spinners / event budget.")
+
+
 def explain(prop, tier):
+    if prop in ("C02", "C09"):
+        extra = " Plus loom model checking of the valid_after watermark primitive (every lock acquisition a scheduling point)." if prop == "C02" else ""
+        return SCHED + extra
+    base = _explain(prop, tier)
+    if prop in ("C03", "C04", "C06", "C07", "C08", "C10", "C11", "C16"):
+        base += " SCHEDULES: " + SCHED
+    return base
+
+
+def _explain(prop, tier):
     extra = {
         "C08": " Plus exhaustive search of the intrusive list (facade) to its fixpoint and of the sketch from all-odd tables.",
         "C12": " M-lru: the probation order must equal the residents sorted by last insert/update/successful get after every op, and evictions must be the shortest LRU prefix.",
@@ -279,6 +292,10 @@ def explain(prop, tier):
         "C15": " At every reachable state and for every contains_key/iter call p: canon(s.p) == canon(s) (on the unsync cache after the maintenance both sides have due).",
         "C17": " Exhaustive enumeration of builder knob combinations; policy(), panic iff > 1000 years, differential history against the equivalent configuration.",
     }.get(prop, "")
+    if prop == "C17":
+        return extra.strip()
+    if prop == "C14":
+        return extra.strip() + " CACHE HISTORIES: " + EXPLAIN["seq"]
     return EXPLAIN["seq"] + extra
 
 
